@@ -9,6 +9,7 @@ import Driver.WtoH
 import Driver.NumH
 import Driver.LinH
 import Driver.EnvH
+import Driver.CrawlH
 import Driver.RgnH
 import Driver.ArrH
 import Driver.InterH
@@ -46,6 +47,7 @@ def dispatch (comp op : String) (args res : List Sexp) : Verdict :=
   | "lin" => handleLin op args res
   | "env" => handleEnv op args res
   | "pset" => handlePSet op args res
+  | "crawl" => handleCrawl op args res
   | "rgn" => handleRgn op args res
   | "arr" => handleArr op args res
   | "inter" => handleInter op args res
